@@ -31,6 +31,7 @@ META = {
                "(thorough 40): hidden state such as cached views is covered",
                "two live frames of independent symbolic widths <= 6 (thorough 16): the same kind of write on "
                "each, views, concatenation - nothing learnt from one frame may be applied to the other",
+               "`f += g` with another reference to f alive (the object keeps its length)",
                "byte-sequence constructor: up to 9 bytes", "pack_len(l): l in 0..10"],
     "stubs": ["builtins isinstance/int/bytes shims (accept SymInt)",
               "int.to_bytes / int.from_bytes / int.bit_length modelled by symx"],
